@@ -185,9 +185,21 @@ def run_ext(prop, tier, jobs, replay_dir, known_sites, only=None):
                 raise Undecided("ext harness %s: status %r without failed checks" % (h["name"], r["status"]))
             if rec["status"] == "refuted":
                 # native confirmation: the crate carries a #[test] twin <name>_native running the same body with concrete values
+                rp = os.path.join(replay_dir, "%s.ext.json" % h["name"])
+                if r.get("compile_error"):
+                    # the failed obligation is "the expansion compiles in this calling crate": rustc is the checker, there is
+                    # no input to replay; the replay file carries the compiler's diagnostics
+                    common.write_json(rp, {"property": prop, "obligation": rec["name"], "engine": "kani-ext", "crate": ext["crate"],
+                                           "failed_checks": rec["failed"], "compile_error": r["compile_error"],
+                                           "confirmed_on_real_code": True,
+                                           "note": "no failing input exists: the calling crate does not compile; re-run "
+                                                   "`cargo check --tests` in kani/ext/%s with RRTK_PATH pointing at the tree" % ext["crate"]})
+                    rec["replay"] = rp
+                    violations.append({"site": h["name"], "replay": rp, "known": h["name"] in known_sites, "no_input": True, "rec": rec})
+                    records.append(rec)
+                    continue
                 rc, out, _ = common.run(["cargo", "test", "--offline", "--", h["name"] + "_native"], cwd=cdir, timeout=1800)
                 native_failed = "FAILED" in out and "test result: FAILED" in out
-                rp = os.path.join(replay_dir, "%s.ext.json" % h["name"])
                 common.write_json(rp, {"property": prop, "obligation": rec["name"], "engine": "kani-ext", "crate": ext["crate"],
                                        "failed_checks": rec["failed"], "native_twin": h["name"] + "_native",
                                        "native_failed": native_failed, "native_output_tail": out[-1500:],
@@ -291,6 +303,13 @@ def main():
             undecided += vinfo.get("undecided", [])
         except Undecided as u:
             undecided.append("verus: %s" % u)
+    if prop == "C19" and not a.only:
+        try:
+            for st in cfg_sites_not_in_baseline():
+                undecided.append("configuration-dependent site not under contract (not in contracts/c19_cfg_sites.json): %s:%d  %s  ->  %s"
+                                 % (st["file"], st["line"], st["cfg"], st["target"][:120]))
+        except Undecided as u:
+            undecided.append("cfg sites: %s" % u)
     expected = _expected_count(prop, a.tier)
     if not a.only and not undecided and expected and len(records) < expected:
         undecided.append("obligation count %d below the recorded minimum %d for %s/%s (vacuity guard)" % (len(records), expected, prop, a.tier))
@@ -339,6 +358,41 @@ def cfg_scan():
                    "they lie in Unit/Quantity/State/Time conversions (re-proved per configuration by the c19_* harnesses) and in powf "
                    "(excluded by the property); item_availability_only sites switch whole items on or off (alloc/std/devices)")
     return out
+
+
+def cfg_sites():
+    """Line-number independent identity of every configuration-dependent site of the crate: (file, the cfg attribute or
+    cfg!() line, the first following line that is not an attribute or comment).  C19's argument is compositional over
+    exactly these sites (each value-affecting one is under a per-configuration contract); a site that is not in the
+    committed baseline contracts/c19_cfg_sites.json is configuration dependence NOT under contract."""
+    import re
+    sites = []
+    src = os.path.join(common.REPO, "src")
+    for root, _d, files in os.walk(src):
+        for f in sorted(files):
+            if not f.endswith(".rs"):
+                continue
+            rel = os.path.relpath(os.path.join(root, f), common.REPO)
+            lines = common.read(os.path.join(root, f)).splitlines()
+            for i, line in enumerate(lines):
+                if "cfg" not in line or not re.search(r"#!?\[cfg|cfg!\(", line):
+                    continue
+                if line.strip().startswith("//"):
+                    continue
+                j = i + 1
+                while j < len(lines) and (lines[j].strip().startswith(("#[", "//", "#![")) or not lines[j].strip()):
+                    j += 1
+                target = " ".join(lines[j].split()) if j < len(lines) else ""
+                sites.append({"file": rel, "cfg": " ".join(line.split()), "target": target, "line": i + 1})
+    return sites
+
+
+def cfg_sites_not_in_baseline():
+    p = os.path.join(VERIF, "contracts", "c19_cfg_sites.json")
+    if not os.path.exists(p):
+        raise Undecided("contracts/c19_cfg_sites.json missing")
+    base = {(b["file"], b["cfg"], b["target"]) for b in json.loads(common.read(p))}
+    return [s for s in cfg_sites() if (s["file"], s["cfg"], s["target"]) not in base]
 
 
 def _expected_count(prop, tier):
